@@ -28,6 +28,11 @@ fn fn_specs() -> Vec<FnSpec> {
         FnSpec { class: "lambda-failing-late", setup: &[], expr: "(x => if x > 3 then nope_undefined else x)", min: 1, max: Some(1) },
         FnSpec { class: "predicate", setup: &[], expr: "(x => x > 2)", min: 1, max: Some(1) },
         FnSpec { class: "predicate-index", setup: &[], expr: "((x, i) => i % 2 == 0)", min: 2, max: Some(2) },
+        // open-ended arity: the index must reach a rest parameter under every form (where / filter / every / some alike)
+        FnSpec { class: "predicate-rest-index", setup: &[], expr: "((...r) => r[1] % 2 == 0)", min: 0, max: None },
+        FnSpec { class: "predicate-rest-count", setup: &[], expr: "((...r) => len(r) == 2)", min: 0, max: None },
+        FnSpec { class: "predicate-optional-index", setup: &[], expr: "((x, i?) => i != null and i % 2 == 1)", min: 1, max: Some(2) },
+        FnSpec { class: "predicate-one-then-rest", setup: &[], expr: "((x, ...r) => len(r) == 1 and r[0] >= 1)", min: 1, max: None },
         FnSpec { class: "predicate-nonboolean", setup: &[], expr: "(x => x)", min: 1, max: Some(1) },
         FnSpec { class: "predicate-true", setup: &[], expr: "(x => true)", min: 1, max: Some(1) },
         FnSpec { class: "predicate-false", setup: &[], expr: "(x => false)", min: 1, max: Some(1) },
